@@ -114,6 +114,12 @@ func (c04) Run(c *Ctx, i int) CaseResult {
 		for k := range g.Feats {
 			feats[k] = true
 		}
+		if r.Intn(4) == 0 {
+			// several operations over related paths: every plan's scrub table must come from its own operation
+			doc, names, vars := genDoc(c, i)
+			in.Query, in.Vars, in.OpName = doc, vars, names[r.Intn(len(names))]
+			feats = map[string]bool{"multi-operation": true}
+		}
 		if r.Intn(2) == 0 {
 			n := 1 + r.Intn(3)
 			for k := 0; k < n; k++ {
@@ -168,37 +174,43 @@ func (c04) Run(c *Ctx, i int) CaseResult {
 	count(plan.RootStep.Then)
 	res.Nontrivial = ndep > 0
 	res.Counters = map[string]int{"dependent_steps": ndep, "scrub_paths": len(plan.FieldsToScrub["id"])}
-	// L1: scrub table
+	// L1: scrub table of every plan of the document against the model, computed from that plan's own operation
 	if c.Drv != nil {
-		req := MonoCase(MonoSchema(), Store{}, fc.Doc, fc.Op, nil)
-		req["op"] = "scrub"
-		req["plan"] = serPlanSteps(plan.RootStep.Then)
-		ans, err := c.Drv.Call(req)
-		if err != nil {
-			res.Fails = append(res.Fails, Failure{Channel: "harness", Classifier: "harness-error", What: err.Error(), Input: in})
-			return res
-		}
-		var model []string
-		if ps, ok := ans["paths"].([]interface{}); ok {
-			for _, p := range ps {
-				var segs []string
-				for _, s := range p.([]interface{}) {
-					segs = append(segs, s.(string))
+		for _, pl := range fc.Out.Plans {
+			if pl.Operation == nil || pl.RootStep == nil {
+				continue
+			}
+			req := MonoCase(MonoSchema(), Store{}, fc.Doc, pl.Operation, nil)
+			req["op"] = "scrub"
+			req["plan"] = serPlanSteps(pl.RootStep.Then)
+			ans, err := c.Drv.Call(req)
+			if err != nil {
+				res.Fails = append(res.Fails, Failure{Channel: "harness", Classifier: "harness-error", What: err.Error(), Input: in})
+				return res
+			}
+			var model []string
+			if ps, ok := ans["paths"].([]interface{}); ok {
+				for _, p := range ps {
+					var segs []string
+					for _, s := range p.([]interface{}) {
+						segs = append(segs, s.(string))
+					}
+					model = append(model, strings.Join(segs, "/"))
 				}
-				model = append(model, strings.Join(segs, "/"))
+				sort.Strings(model)
 			}
-			sort.Strings(model)
-		}
-		impl := sortedPaths(plan.FieldsToScrub["id"])
-		extra := 0
-		for k := range plan.FieldsToScrub {
-			if k != "id" {
-				extra++
+			impl := sortedPaths(pl.FieldsToScrub["id"])
+			extra := 0
+			for k := range pl.FieldsToScrub {
+				if k != "id" {
+					extra++
+				}
 			}
-		}
-		if fmt.Sprint(model) != fmt.Sprint(impl) || extra > 0 || ans["err"] != nil {
-			res.Fails = append(res.Fails, Failure{Channel: "L1.scrub-table", Classifier: cl, What: "FieldsToScrub differs from the model's scrub paths", Input: in,
-				Expected: model, Observed: map[string]interface{}{"FieldsToScrub": plan.FieldsToScrub, "plan": PlanText(fc.Out.Plans)}})
+			if fmt.Sprint(model) != fmt.Sprint(impl) || extra > 0 || ans["err"] != nil {
+				res.Fails = append(res.Fails, Failure{Channel: "L1.scrub-table", Classifier: cl, What: fmt.Sprintf("FieldsToScrub of operation %q differs from the model's scrub paths", pl.Operation.Name), Input: in,
+					Expected: model, Observed: map[string]interface{}{"FieldsToScrub": pl.FieldsToScrub, "plan": PlanText(fc.Out.Plans)}})
+				break
+			}
 		}
 	}
 	// L0: key sets
